@@ -14,19 +14,27 @@
 EXTENDS Integers, Sequences, FiniteSets, TLC, Json, IOUtils, StrategyProps
 Data == JsonDeserialize(IOEnv.TRACE_FILE)
 Traces == Data.traces
-VARIABLES tid, l, vs, sym, exp, run
-vars == <<tid, l, vs, sym, exp, run>>
+VARIABLES tid, l, vs, sym, exp, run, now
+vars == <<tid, l, vs, sym, exp, run, now>>
 Ev(t) == Traces[t].ev
 Hdr == Traces[tid].hdr
 NoFill == [o |-> 0]
 NanV == -999999999
+NoWin == [t0 |-> -1, lo |-> <<>>, hi |-> <<>>, last |-> -1]
 Sym0 == [st |-> "flat", q |-> 0, fill |-> NoFill, got |-> <<>>, cyc |-> <<>>, side |-> "close", ords |-> <<>>,
-         over |-> FALSE, flip |-> ""]
+         over |-> FALSE, flip |-> "", win |-> NoWin]
+\* ---- the independent clock: the minute (index of its 1m candle + 1) in which a fill happened.  A resting order fills
+\* while one of the 1m candles handed to the matching function is being matched (f.cm = index of the partial candle
+\* the price was in, checked below against the candles themselves); anything else (market orders) executes at the end
+\* of the last matched minute / chunk.  Replays at object level have no matching function: the logged clock is taken.
+FillTime(f) == IF f.cm >= 0 THEN f.cm + 1 ELSE IF now >= 0 THEN now ELSE f.t
+InWindow(W, f) == /\ W.t0 >= 0 /\ f.cm >= W.t0 /\ f.cm < W.t0 + Len(W.lo) /\ f.cm >= W.last
+                  /\ W.lo[f.cm - W.t0 + 1] <= f.p /\ f.p <= W.hi[f.cm - W.t0 + 1]
 \* cause of a flip: the non-reduce-only market order that _on_open_position substitutes for a wrong-side exit row
 FlipTag(f) == IF f.via # "none" /\ ~f.ro /\ f.type = "MARKET" THEN ":flip-by-market-replacement" ELSE ":flip"
 
 Init == /\ tid \in 1..Len(Traces) /\ l = 1 /\ vs = <<>> /\ exp = <<>>
-        /\ sym = [s \in 1..Traces[tid].hdr.nsym |-> Sym0]
+        /\ sym = [s \in 1..Traces[tid].hdr.nsym |-> Sym0] /\ now = -1
         /\ run = [flip |-> "", over |-> FALSE, fills |-> 0, hooks |-> 0, cycles |-> 0, maxfills |-> 0]
 
 RECURSIVE AddAll(_, _, _)
@@ -43,6 +51,9 @@ FillClauses(S, f, qa) ==
       eff == Effect(f.qb, qa)
       tag == IF S.flip # "" THEN S.flip ELSE IF eff = "flip" THEN FlipTag(f) ELSE ""
   IN If(f.qb = S.q, "position-changed-outside-a-fill" \o tag)
+     \o If(f.t = FillTime(f), "fill-time:clock-differs-from-the-minute-of-the-matched-candle")
+     \o If(f.cm < 0 \/ InWindow(S.win, f), "fill-time:not-inside-a-candle-being-matched")
+     \o If(\A i \in DOMAIN got : got[i][4] = FillTime(f), "hook-time:strategy-sees-another-minute-than-the-fill")
      \o (IF Names(got) # Names(want)
          THEN <<"hook-word:" \o eff \o "-reported-as-" \o
                 (IF got = <<>> THEN "nothing" ELSE IF Len(got) = 1 THEN got[1][1] ELSE "several") \o tag>>
@@ -57,7 +68,7 @@ Dout(qb, qa) == IF Effect(qb, qa) \in {"red", "close"} THEN SAbs(qb) - SAbs(qa)
                 ELSE IF Effect(qb, qa) = "flip" THEN SAbs(qb) ELSE 0
 
 Closed(S, f, qa) ==     \* expected trade record when this fill ends the cycle
-  LET c == Append(S.cyc, [o |-> f.o, din |-> 0, dout |-> Dout(f.qb, qa), p |-> f.p, t |-> f.t])
+  LET c == Append(S.cyc, [o |-> f.o, din |-> 0, dout |-> Dout(f.qb, qa), p |-> f.p, t |-> FillTime(f)])
   IN [s |-> f.s, side |-> S.side, cyc |-> c, orders |-> Append(S.ords, f.o),
       over |-> S.over \/ (f.ro /\ f.q > SAbs(f.qb)), flip |-> IF S.flip # "" THEN S.flip ELSE IF Effect(f.qb, qa) = "flip" THEN FlipTag(f) ELSE ""]
 
@@ -97,22 +108,27 @@ EndClauses(e) ==
 Step ==
   /\ l <= Len(Ev(tid))
   /\ LET e == Ev(tid)[l] IN
-     CASE e.k = "fillb" ->
+     CASE e.k = "match" ->         \* the 1m candles handed to the matching function (ranges extended to the previous close)
+            /\ sym' = [sym EXCEPT ![e.s].win = [t0 |-> e.t0, lo |-> e.lo, hi |-> e.hi, last |-> e.t0]]
+            /\ now' = e.t0 + Len(e.lo)
+            /\ UNCHANGED <<vs, exp, run>>
+       [] e.k = "fillb" ->
             /\ vs' = AddAll(vs, l, If(sym[e.s].fill.o = 0, "machinery:nested-fill"))
             /\ sym' = [sym EXCEPT ![e.s].fill = e, ![e.s].got = <<>>]
-            /\ UNCHANGED <<exp, run>>
+            /\ UNCHANGED <<exp, run, now>>
        [] e.k = "hook" ->
             /\ vs' = AddAll(vs, l, If(sym[e.s].fill.o # 0, "hook-outside-a-fill:" \o e.n))
-            /\ sym' = [sym EXCEPT ![e.s].got = Append(@, <<e.n, e.q, e.o>>)]
+            /\ sym' = [sym EXCEPT ![e.s].got = Append(@, <<e.n, e.q, e.o, e.t>>)]
             /\ run' = [run EXCEPT !.hooks = @ + 1]
-            /\ UNCHANGED exp
+            /\ UNCHANGED <<exp, now>>
        [] e.k = "fille" ->
             LET S == sym[e.s]
                 f == S.fill
                 eff == Effect(f.qb, e.qa)
                 ends == eff \in {"close", "flip"}
                 nf == Len(S.cyc) + 1
-            IN /\ vs' = AddAll(vs, l, If(f.o = e.o, "machinery:fill-pairing") \o FillClauses(S, f, e.qa))
+            IN /\ UNCHANGED now
+               /\ vs' = AddAll(vs, l, If(f.o = e.o, "machinery:fill-pairing") \o FillClauses(S, f, e.qa))
                /\ exp' = IF ends THEN Append(exp, Closed(S, f, e.qa)) ELSE exp
                /\ run' = [run EXCEPT !.flip = IF @ = "" /\ eff = "flip" THEN FlipTag(f) ELSE @,
                                      !.over = @ \/ (ends /\ f.ro /\ f.q > SAbs(f.qb)),
@@ -120,19 +136,20 @@ Step ==
                                      !.maxfills = IF ends /\ nf > @ THEN nf ELSE @]
                /\ sym' = [sym EXCEPT ![e.s] =
                     IF eff = "close"
-                    THEN [Sym0 EXCEPT !.q = 0]
+                    THEN [Sym0 EXCEPT !.q = 0, !.win = [S.win EXCEPT !.last = IF f.cm >= 0 THEN f.cm ELSE @]]
                     ELSE IF eff = "flip"
                     THEN [Sym0 EXCEPT !.st = "in", !.q = e.qa, !.side = PosSide(e.qa), !.flip = IF S.flip # "" THEN S.flip ELSE FlipTag(f), !.ords = <<f.o>>,
-                                      !.cyc = <<[o |-> f.o, din |-> SAbs(e.qa), dout |-> 0, p |-> f.p, t |-> f.t]>>]
+                                      !.win = [S.win EXCEPT !.last = IF f.cm >= 0 THEN f.cm ELSE @],
+                                      !.cyc = <<[o |-> f.o, din |-> SAbs(e.qa), dout |-> 0, p |-> f.p, t |-> FillTime(f)]>>]
                     ELSE [S EXCEPT !.st = IF e.qa = 0 THEN "flat" ELSE "in", !.q = e.qa, !.fill = NoFill, !.got = <<>>,
                                    !.side = IF eff = "open" THEN PosSide(e.qa) ELSE @,
-                                   !.ords = Append(@, f.o),
+                                   !.ords = Append(@, f.o), !.win.last = IF f.cm >= 0 THEN f.cm ELSE @,
                                    !.cyc = Append(@, [o |-> f.o, din |-> Din(f.qb, e.qa), dout |-> Dout(f.qb, e.qa),
-                                                      p |-> f.p, t |-> f.t])]]
+                                                      p |-> f.p, t |-> FillTime(f)])]]
        [] e.k = "end" ->
             /\ vs' = AddAll(vs, l, EndClauses(e))
-            /\ UNCHANGED <<sym, exp, run>>
-       [] OTHER -> UNCHANGED <<vs, sym, exp, run>>
+            /\ UNCHANGED <<sym, exp, run, now>>
+       [] OTHER -> UNCHANGED <<vs, sym, exp, run, now>>
   /\ l' = l + 1 /\ UNCHANGED tid
 Spec == Init /\ [][Step]_vars
 Finished == l > Len(Ev(tid))
